@@ -24,6 +24,7 @@ from vgi_rpc.external import (
 )
 from vgi_rpc.log import Level, Message
 from vgi_rpc.metadata import (
+    ERROR_KIND_KEY,
     LOG_EXTRA_KEY,
     LOG_LEVEL_KEY,
     LOG_MESSAGE_KEY,
@@ -673,7 +674,11 @@ def _dispatch_log_or_error(
     if level_str == Level.EXCEPTION.value:
         error_type = str(raw_extra_data.get("exception_type", level_str))
         traceback_str = str(raw_extra_data.get("traceback", ""))
-        raise RpcError(error_type, message_str, traceback_str, request_id=request_id)
+        # Stable error category (see metadata.ERROR_KIND_KEY): exposed on the
+        # client error so callers can branch on the token instead of the message.
+        kind_bytes = custom_metadata.get(ERROR_KIND_KEY)
+        error_kind = kind_bytes.decode() if kind_bytes is not None else None
+        raise RpcError(error_type, message_str, traceback_str, request_id=request_id, error_kind=error_kind)
 
     # Non-exception log message → invoke callback
     try:
